@@ -8,6 +8,8 @@ import KinModel.Lemmas.C13Stream
 import KinModel.Lemmas.C13Body
 import KinModel.Lemmas.C13Params
 import KinModel.Lemmas.C13Media
+import KinModel.Gen.BodyDecoders
+import KinModel.Gen.BodyEncoders
 namespace KinModel.C13
 open Stream
 
@@ -29,23 +31,30 @@ theorem body_first_read_after (c : Cfg) (outcome : Bytes → BodyOutcome) (r : R
     readAll (validateStream c outcome r).1 = expectedAfter c outcome r data := by
   simp [readAll, (validateStream_coherent c outcome r data h).1]
 
-/-- **body_readable_after (and rewindable), partial.**  Full statement: …and GetBody rewinds to the same bytes
-(`Readable`).  It fails where re-encoding fails (`rewriteFails`: class NoBodyEncoder, witness below); everywhere else: -/
-theorem body_readable_after_partial (c : Cfg) (outcome : Bytes → BodyOutcome) (r : Req) (data : Bytes)
-    (h : Coherent r data) (hnf : outcome data ≠ .rewriteFails) :
+/-- **body_readable_after (and rewindable).**  …and GetBody rewinds to the same bytes (`Readable`) — after every
+outcome, a failed re-encoding included.  Full strength: the exclusion of the rewrite-failure class is gone with the
+repair of F-C13-8's second face (commit ac404f7). -/
+theorem body_readable_after (c : Cfg) (outcome : Bytes → BodyOutcome) (r : Req) (data : Bytes)
+    (h : Coherent r data) :
     Readable (validateStream c outcome r).1 (expectedAfter c outcome r data) := by
   obtain ⟨hb, hg, _⟩ := validateStream_coherent c outcome r data h
-  exact ⟨by simp [readAll, hb], hg hnf⟩
+  exact ⟨by simp [readAll, hb], hg⟩
 
-/-- F-C13-8, second face: when the rewrite fails for want of an encoder, the request is rejected AND a GetBody that
-    validation itself installed (server-side request) now rewinds to nothing: the body can be read once, a second
-    validation (or any retry) finds it empty -/
-theorem witness_rewrite_failure_breaks_getBody :
+/-- regression (F-C13-8, second face, repaired by ac404f7): a server-side request (no GetBody) whose re-encoding
+    fails is rejected, and the GetBody that validation installed still rewinds to the whole body: a second validation
+    reads the same bytes.  (Before the repair: `getBody = .ok []`, the second validation read nothing.) -/
+theorem regression_rewrite_failure_keeps_getBody :
     let r : Req := { body := some [1, 2], getBody := .none, contentLength := 2 }
     let c : Cfg := { hasAuthFunc := true, reqs := [], hasBodySpec := true, required := true, multi := false, paramsOK := true }
     let r1 := (validateStream c (fun _ => .rewriteFails) r).1
-    readAll r1 = [1, 2] ∧ r1.getBody = .ok [] ∧
-    readAll (validateStream c (fun _ => .rewriteFails) r1).1 = [] := by decide
+    (validateStream c (fun _ => .rewriteFails) r).2 = false ∧
+    readAll r1 = [1, 2] ∧ r1.getBody = .ok [1, 2] ∧ Readable r1 [1, 2] ∧
+    readAll (validateStream c (fun _ => .rewriteFails) r1).1 = [1, 2] := by
+  refine ⟨by decide, by decide, by decide, ⟨by decide, ?_⟩, by decide⟩
+  intro b hb
+  have : (validateStream { hasAuthFunc := true, reqs := [], hasBodySpec := true, required := true, multi := false, paramsOK := true }
+      (fun _ => BodyOutcome.rewriteFails) { body := some [1, 2], getBody := .none, contentLength := 2 }).1.getBody = .ok [1, 2] := by decide
+  rw [this] at hb; cases hb; rfl
 
 /-- The only way the readable bytes differ from the received ones is the default rewrite of an accepted body. -/
 theorem body_changes_only_by_rewrite (c : Cfg) (outcome : Bytes → BodyOutcome) (r : Req) (data : Bytes) :
@@ -64,11 +73,11 @@ theorem body_changes_only_by_rewrite (c : Cfg) (outcome : Bytes → BodyOutcome)
       | rewrite nd => exact Or.inr ⟨nd, rfl, rfl⟩
 
 /-- **skip_defaults_identity (stream).** When nothing is rewritten (default-setting skipped: the value layer never
-answers `rewrite` or `rewriteFails`), the body afterwards is byte-for-byte the one received, and rewindable. -/
+answers `rewrite`), the body afterwards is byte-for-byte the one received, and rewindable. -/
 theorem skip_defaults_stream_identity (c : Cfg) (outcome : Bytes → BodyOutcome) (r : Req) (data : Bytes)
-    (h : Coherent r data) (hno : ∀ d nd, outcome d ≠ .rewrite nd) (hnf : ∀ d, outcome d ≠ .rewriteFails) :
+    (h : Coherent r data) (hno : ∀ d nd, outcome d ≠ .rewrite nd) :
     Readable (validateStream c outcome r).1 data := by
-  have hr := body_readable_after_partial c outcome r data h (hnf data)
+  have hr := body_readable_after c outcome r data h
   rcases body_changes_only_by_rewrite c outcome r data with he | ⟨nd, ho, _⟩
   · rwa [he] at hr
   · exact absurd ho (hno data nd)
@@ -80,12 +89,12 @@ theorem contentLength_consistent (c : Cfg) (outcome : Bytes → BodyOutcome) (r 
   obtain ⟨hb, _, hl⟩ := validateStream_coherent c outcome r data h
   rw [hl hcl]; simp [readAll, hb]
 
-/-- A second validation finds a coherent request again (so all of the above holds for it as well) — outside the
-rewrite-failure class. -/
-theorem second_validation_coherent_partial (c : Cfg) (outcome : Bytes → BodyOutcome) (r : Req) (data : Bytes)
-    (h : Coherent r data) (hnf : outcome data ≠ .rewriteFails) :
+/-- A second validation finds a coherent request again (so all of the above holds for it as well, and for every
+further one).  Full strength. -/
+theorem second_validation_coherent (c : Cfg) (outcome : Bytes → BodyOutcome) (r : Req) (data : Bytes)
+    (h : Coherent r data) :
     Coherent (validateStream c outcome r).1 (expectedAfter c outcome r data) :=
-  ⟨(validateStream_coherent c outcome r data h).1, (validateStream_coherent c outcome r data h).2.1 hnf⟩
+  ⟨(validateStream_coherent c outcome r data h).1, (validateStream_coherent c outcome r data h).2.1⟩
 
 /-- A request without a body is not given one by the security phase. -/
 theorem sec_no_body_untouched (f : Bool) (r : Req) (qs : List (List Scheme)) (h : r.body = none) :
@@ -129,9 +138,9 @@ theorem null_never_invented (c : Ctx) (s : S) (v v' : J) (h : visit c s v = some
 
 /-- **defaults_only_absent (one object level, exact).** After an accepted object visit the member under a key that
 has no property schema is what it was; under a key with a property schema it is what that schema's own visit makes
-of: the default if the slot was empty and the property has an applicable default, the received member otherwise.
-Nothing else changes.  (`afterInject`, `slotEmpty`, `dfltFor` are the three definitions that say "empty",
-"applicable": absent — or, in the code's reading, null — and not read-only.) -/
+of: the default if the key was ABSENT and the property has an applicable default, the received member otherwise
+(an explicit null included).  Nothing else changes.  (`afterInject`, `slotEmpty`, `dfltFor` are the three
+definitions that say "absent" and "applicable": not read-only, not a null default.) -/
 theorem defaults_only_absent (c : Ctx) (a : Attr) (req : List String) (props : List (String × S)) (addl : Bool)
     (hn : keysNodup (props.map (·.1)) = true) (kvs kvs' : List (String × J))
     (h : visit c (.obj a req props addl) (.obj kvs) = some (.obj kvs')) (k : String) :
@@ -141,43 +150,52 @@ theorem defaults_only_absent (c : Ctx) (a : Attr) (req : List String) (props : L
        | none => Body.lookup k kvs) :=
   visit_obj_member c a req props addl hn kvs kvs' h k
 
-/-- A member that is present and not null is never replaced by a default. -/
-theorem present_member_not_defaulted (c : Ctx) (a : Attr) (m : J) (h : m.isNull = false) :
-    afterInject c a (some m) = some m := by
-  cases m <;> simp_all [afterInject, slotEmpty, J.isNull]
+/-- **A member that is present is never replaced by a default** — whatever its value, an explicit null included.
+Full strength: the hypothesis "not null" is gone with the repair of finding #24 (commit c740938). -/
+theorem present_member_not_defaulted (c : Ctx) (a : Attr) (m : J) : afterInject c a (some m) = some m := by
+  simp [afterInject, slotEmpty]
 
-/-- Under the property's reading of "absent" (the spec context) an explicit null is not replaced either … -/
-theorem explicit_null_kept_by_spec (c : Ctx) (a : Attr) : afterInject (specCtx c) a (some .null) = some .null := by
-  simp [afterInject, slotEmpty, specCtx]
+/-- An absent member receives the applicable default of its property, and only that. -/
+theorem absent_member_defaulted (c : Ctx) (a : Attr) : afterInject c a none = dfltFor c a := by
+  unfold afterInject slotEmpty
+  cases dfltFor c a <;> rfl
 
-/-- … but in the code it is (finding #24): full-strength statement `afterInject c a (some m) = some m` for every
-present member `m` fails exactly for `m = null` with an applicable default. -/
-theorem witness_null_replaced :
+/-- **The default loop = the property's one-shot reading.**  What visitJSONObject's loop over the sorted property
+names leaves behind is the received members, in their order and unchanged, followed by exactly one new member for each
+property that is absent and has an applicable default.  Full strength. -/
+theorem object_defaults_are_the_absent_ones (c : Ctx) (props : List (String × S)) (kvs : List (String × J))
+    (hn : keysNodup (props.map (·.1)) = true) : injectDefaults c props kvs = kvs ++ absentDefaults c props kvs :=
+  injectDefaults_eq_append c props kvs hn
+
+/-- **defaults_only_absent (model = spec), full strength.**  The code's forwarding `visit c` is the property's
+`specVisit c` (one new member per ABSENT property with a default, nothing else touched; the matched branch's
+forwarding for anyOf/oneOf, the chained one for allOf) — on every value, at any depth, through arrays and
+compositions.  The class `NullReplaced` (finding #24 / F-C13-1) is repaired (commit c740938) and deleted. -/
+theorem defaults_only_absent_model_eq_spec (c : Ctx) (s : S) (hw : wf s = true) (v : J) :
+    visit c s v = specVisit c s v :=
+  visit_eq_spec c s hw v
+
+/-- regression (finding #24 / F-C13-1, repaired by c740938): `{"a":null}` against `a: string, nullable, default "d"` is
+    forwarded as it is — model and spec agree (before the repair the model forwarded `{"a":"d"}`) … -/
+theorem regression_null_kept :
     let s : S := .obj {} [] [("a", .leaf { nullable := true, dflt := some (.str "d") } .string)] true
     let v : J := .obj [("a", .null)]
-    hasNullProp v = true ∧
-    visit {} s v = some (.obj [("a", .str "d")]) ∧ visit (specCtx {}) s v = some v := by
-  refine ⟨by decide, by rfl, by rfl⟩
+    visit {} s v = some v ∧ specVisit {} s v = some v ∧ visit {} s (.obj []) = some (.obj [("a", .str "d")]) := by
+  refine ⟨by rfl, by rfl, by rfl⟩
 
-/-- **defaults_only_absent_partial (model = spec).**  Full statement: the code's forwarding `visit c` is the
-property's `visit (specCtx c)` (defaults for ABSENT properties only) on every value.  It fails on the pinned code
-(`witness_null_replaced`, finding #24); it holds outside the class `NullReplaced` = "the received value has an
-explicit null member" (for schemas whose defaults have none either) — at any depth, through arrays and
-compositions. -/
-theorem defaults_only_absent_partial (c : Ctx) (s : S) (hc : cleanDefaults s = true) (v : J)
-    (hn : hasNullProp v = false) : visit c s v = visit (specCtx c) s v :=
-  ((visit_agree c s hc) v hn).1.symm
-
-/-- … and the forwarded value has no explicit null member either (so the statement applies to it again). -/
-theorem no_null_member_introduced (c : Ctx) (s : S) (hc : cleanDefaults s = true) (v v' : J)
-    (hn : hasNullProp v = false) (h : visit c s v = some v') : hasNullProp v' = false :=
-  ((visit_agree c s hc) v hn).2 v' h
+/-- … and against a NON-nullable `a: integer, default 1` it is rejected ("Value is not nullable"): the member is
+    present, so it is validated as it was sent, not papered over by the default — model and spec agree. -/
+theorem regression_null_not_nullable_rejected :
+    let s : S := .obj {} [] [("a", .leaf { dflt := some (.num 1) } .number)] true
+    visit {} s (.obj [("a", .null)]) = none ∧ specVisit {} s (.obj [("a", .null)]) = none ∧
+    visit {} s (.obj []) = some (.obj [("a", .num 1)]) := by
+  refine ⟨by rfl, by rfl, by rfl⟩
 
 /-- **defaults_applied.** After an accepted object visit with default-setting on, no property with an applicable
 default is left absent. -/
 theorem defaults_applied (c : Ctx) (hc : c.setDefaults = true) (a : Attr) (req props addl) (kvs : List (String × J)) (v' : J)
     (h : visit c (.obj a req props addl) (.obj kvs) = some v') :
-    ∃ kvs', v' = .obj kvs' ∧ ∀ p ∈ props, slotEmpty c (Body.lookup p.1 kvs') = true → dfltFor c p.2.attr = none :=
+    ∃ kvs', v' = .obj kvs' ∧ ∀ p ∈ props, slotEmpty (Body.lookup p.1 kvs') = true → dfltFor c p.2.attr = none :=
   visit_obj_settled c hc a req props addl kvs v' h
 
 /-- **defaults_idempotent (no compositions).** For schemas built from objects, arrays and leaves — any depth —
@@ -703,14 +721,66 @@ theorem contentGet_parameters_ignored (declared : List String) (raw : String) (h
   have h2' : base raw ∈ declared := by simpa using h2
   unfold contentGet; simp [h0, h1', h2']
 
+/-! ### the two registries, tied to the source (regenerated tables BodyDecoders, BodyEncoders) -/
+
+/-- the translator could read every registration statement -/
+theorem registries_recognised :
+    Gen.bodyDecoders.all (fun r => match r with | .unrecognised _ => false | .reg _ _ => true) = true ∧
+    Gen.bodyEncoders.all (fun r => match r with | .unrecognised _ => false | .reg _ _ => true) = true := by decide
+
+/-- **`decoderOf` is the decoder registry of the source**: every registered media type is decoded by the decoder the
+model names — JSON, text, YAML — or is one of the four media types listed as outside the fragment; a media type the
+model gives a decoder is registered. -/
+theorem decoder_registry_is_code :
+    Gen.bodyDecoders.all (fun r => match r with
+      | .reg k "JSONBodyDecoder" => decoderOf k == .json
+      | .reg k "PlainBodyDecoder" => decoderOf k == .plain
+      | .reg k "YamlBodyDecoder" => decoderOf k == .yaml
+      | .reg k _ => unmodelledTypes.contains k && decoderOf k == .none
+      | .unrecognised _ => false) = true ∧
+    (jsonTypes ++ ["text/plain"] ++ yamlTypes ++ unmodelledTypes).all (fun k =>
+      Gen.bodyDecoders.any (fun r => match r with | .reg k' _ => k' == k | _ => false)) = true ∧
+    Gen.bodyDecoders.length = (jsonTypes ++ ["text/plain"] ++ yamlTypes ++ unmodelledTypes).length := by decide
+
+/-- **`hasEncoder` is the encoder registry of the source**: the registered encoders are json.Marshal under exactly
+the media types of `encoderTypes`. -/
+theorem encoder_registry_is_code :
+    Gen.bodyEncoders = encoderTypes.map (fun k => .reg k "json.Marshal") := by decide
+
+/-- **Every body the JSON decoder decodes can be written back** (repair 54b25f5) — on the registries of the source … -/
+theorem json_decoded_has_encoder_in_source :
+    Gen.bodyDecoders.all (fun r => match r with
+      | .reg k "JSONBodyDecoder" => Gen.bodyEncoders.any (fun e => match e with | .reg k' _ => k' == k | _ => false)
+      | _ => true) = true := by decide
+
+/-- … and in the model, for every media type. -/
+theorem json_decoded_has_encoder (mediaType : String) (h : decoderOf mediaType = .json) : hasEncoder mediaType = true := by
+  unfold decoderOf at h
+  unfold hasEncoder encoderTypes
+  split at h
+  · assumption
+  · split at h
+    · cases h
+    · split at h <;> cases h
+
+/-- the decoders of the source that have NO encoder: exactly YAML and the unmodelled form / multipart / csv / file
+    decoders (what is left of F-C13-8; text, csv and file bodies decode to strings and never receive defaults) -/
+theorem decoders_without_encoder :
+    (Gen.bodyDecoders.filterMap (fun r => match r with
+      | .reg k d => if Gen.bodyEncoders.any (fun e => match e with | .reg k' _ => k' == k | _ => false) then none else some (k, d)
+      | _ => none)) =
+    [("application/octet-stream", "FileBodyDecoder"), ("application/x-www-form-urlencoded", "UrlencodedBodyDecoder"),
+     ("application/x-yaml", "YamlBodyDecoder"), ("application/yaml", "YamlBodyDecoder"),
+     ("multipart/form-data", "MultipartBodyDecoder"), ("text/csv", "CsvBodyDecoder"), ("text/plain", "PlainBodyDecoder")] := by decide
+
 /-- **The body phase = spec (partial).**  Full statement: `bodyOutcome = specOutcome` — an accepted body whose defaults
 were set is forwarded re-encoded.  It fails where the body was decoded by a decoder for which no encoder is registered
-(`NoBodyEncoder`, finding F-C13-8, witness below); outside that class it holds, for every Content-Type header (with or
-without parameters), every set of declared media types, every schema. -/
-theorem body_outcome_eq_spec_partial (c : Ctx) (declared : List (String × Option S)) (header : String)
-    (parse : Stream.Bytes → Option J) (text : Stream.Bytes → J) (enc : J → Stream.Bytes) (data : Stream.Bytes)
-    (hx : NoBodyEncoder c declared header parse text data = false) :
-    bodyOutcome c declared header parse text enc data = specOutcome c declared header parse text enc data := by
+(`NoBodyEncoder`, what is left of finding F-C13-8: YAML; witness below); outside that class it holds, for every
+Content-Type header (with or without parameters), every set of declared media types, every (well-formed) schema. -/
+theorem body_outcome_eq_spec_partial (c : Ctx) (declared : List (String × Option S)) (hw : declaredWf declared = true)
+    (header : String) (cd : Codec) (data : Stream.Bytes)
+    (hx : NoBodyEncoder c declared header cd data = false) :
+    bodyOutcome c declared header cd data = specOutcome c declared header cd data := by
   rw [bodyOutcome_eq, specOutcome_eq]
   rw [noBodyEncoder_eq] at hx
   split
@@ -726,10 +796,11 @@ theorem body_outcome_eq_spec_partial (c : Ctx) (declared : List (String × Optio
         | none => rfl
         | some s =>
           simp only [hs] at hx ⊢
-          cases hd : decoded header parse text data with
+          cases hd : decoded header cd data with
           | none => rfl
           | some v =>
             simp only [hd] at hx ⊢
+            rw [← visit_eq_spec c s (schemaOf_wf key declared s hw hs) v]
             cases hv : visit c s v with
             | none => rfl
             | some v' =>
@@ -738,13 +809,65 @@ theorem body_outcome_eq_spec_partial (c : Ctx) (declared : List (String × Optio
               cases h1 : c.setDefaults <;> cases h2 : J.beq v' v <;> cases h3 : hasEncoder (base header) <;>
                 simp_all
 
+/-- A text/plain body is never rewritten: it decodes to a string, and a string is forwarded as it is. -/
+theorem plain_body_never_rewritten (c : Ctx) (declared : List (String × Option S)) (header : String) (cd : Codec)
+    (data : Stream.Bytes) (hp : decoderOf (base header) = .plain) :
+    bodyOutcome c declared header cd data = .accept ∨ bodyOutcome c declared header cd data = .reject := by
+  rw [bodyOutcome_eq]
+  split
+  · exact Or.inl rfl
+  · split
+    · exact Or.inr rfl
+    · split
+      · simp only [decoded, hp]
+        cases hv : visit c _ (.str (cd.text data)) with
+        | none => exact Or.inr rfl
+        | some v' =>
+          left
+          simp only
+          rw [visit_str c _ _ v' hv]
+          simp [finish, J.beq_refl]
+      · exact Or.inl rfl
+
+/-- **The body phase = spec, full strength for every body the JSON or the text decoder decodes, and for every media
+type without a decoder** (no exclusion): F-C13-8 is repaired for the "+json" family (commit 54b25f5). -/
+theorem body_outcome_eq_spec_json (c : Ctx) (declared : List (String × Option S)) (hw : declaredWf declared = true)
+    (header : String) (cd : Codec) (data : Stream.Bytes) (hj : decoderOf (base header) ≠ .yaml) :
+    bodyOutcome c declared header cd data = specOutcome c declared header cd data := by
+  apply body_outcome_eq_spec_partial c declared hw header cd data
+  rw [noBodyEncoder_eq]
+  cases hd : decoderOf (base header) with
+  | yaml => exact absurd hd hj
+  | json => simp [json_decoded_has_encoder _ hd]
+  | none =>
+    cases hg : contentGet (declared.map (·.1)) header with
+    | none => simp
+    | some key =>
+      simp only
+      cases hs : schemaOf key declared with
+      | none => simp
+      | some os => cases os <;> simp [decoded, hd]
+  | plain =>
+    cases hg : contentGet (declared.map (·.1)) header with
+    | none => simp
+    | some key =>
+      simp only
+      cases hs : schemaOf key declared with
+      | none => simp
+      | some os =>
+        cases os with
+        | none => simp
+        | some s =>
+          simp only [decoded, hd]
+          cases hv : visit c s (.str (cd.text data)) with
+          | none => simp
+          | some v' => rw [visit_str c s _ v' hv]; simp [J.beq_refl]
+
 /-- Nothing is rewritten when default-setting is skipped. -/
 theorem rewrite_only_with_defaults_on (c : Ctx) (hc : c.setDefaults = false) (declared : List (String × Option S))
-    (header : String) (parse : Stream.Bytes → Option J) (text : Stream.Bytes → J) (enc : J → Stream.Bytes)
-    (data : Stream.Bytes) : (∀ nd, bodyOutcome c declared header parse text enc data ≠ .rewrite nd) ∧
-      bodyOutcome c declared header parse text enc data ≠ .rewriteFails := by
-  have key : bodyOutcome c declared header parse text enc data = .accept ∨
-      bodyOutcome c declared header parse text enc data = .reject := by
+    (header : String) (cd : Codec) (data : Stream.Bytes) :
+    (∀ nd, bodyOutcome c declared header cd data ≠ .rewrite nd) ∧ bodyOutcome c declared header cd data ≠ .rewriteFails := by
+  have key : bodyOutcome c declared header cd data = .accept ∨ bodyOutcome c declared header cd data = .reject := by
     rw [bodyOutcome_eq]
     split
     · simp
@@ -763,23 +886,20 @@ theorem rewrite_only_with_defaults_on (c : Ctx) (hc : c.setDefaults = false) (de
 outcome, any Content-Type, any declared content, any schema, valid or invalid body — the next handler reads exactly
 the bytes that were received. -/
 theorem skip_defaults_body_identity (cfg : Stream.Cfg) (c : Ctx) (hc : c.setDefaults = false)
-    (declared : List (String × Option S)) (header : String)
-    (parse : Stream.Bytes → Option J) (text : Stream.Bytes → J) (enc : J → Stream.Bytes)
+    (declared : List (String × Option S)) (header : String) (cd : Codec)
     (r : Stream.Req) (data : Stream.Bytes) (h : Stream.Coherent r data) :
-    Stream.Readable (Stream.validateStream cfg (bodyOutcome c declared header parse text enc) r).1 data :=
+    Stream.Readable (Stream.validateStream cfg (bodyOutcome c declared header cd) r).1 data :=
   skip_defaults_stream_identity cfg _ r data h
-    (fun d nd => (rewrite_only_with_defaults_on c hc declared header parse text enc d).1 nd)
-    (fun d => (rewrite_only_with_defaults_on c hc declared header parse text enc d).2)
+    (fun d nd => (rewrite_only_with_defaults_on c hc declared header cd d).1 nd)
 
 /-- **What is forwarded.**  If the body is rewritten, the new bytes are the encoding of what the value layer makes of
-the decoded body under the schema of the media type that the header selects — and the header's media type is
-application/json. -/
-theorem rewrite_is_encoded_visit (c : Ctx) (declared : List (String × Option S)) (header : String)
-    (parse : Stream.Bytes → Option J) (text : Stream.Bytes → J) (enc : J → Stream.Bytes) (data nd : Stream.Bytes)
-    (h : bodyOutcome c declared header parse text enc data = .rewrite nd) :
+the decoded body under the schema of the media type that the header selects — and the header's media type is one of
+the six of the JSON family. -/
+theorem rewrite_is_encoded_visit (c : Ctx) (declared : List (String × Option S)) (header : String) (cd : Codec)
+    (data nd : Stream.Bytes) (h : bodyOutcome c declared header cd data = .rewrite nd) :
     ∃ key s v v', contentGet (declared.map (·.1)) header = some key ∧ schemaOf key declared = some (some s) ∧
-      decoded header parse text data = some v ∧ visit c s v = some v' ∧ nd = enc v' ∧ c.setDefaults = true ∧
-      base header = "application/json" := by
+      decoded header cd data = some v ∧ visit c s v = some v' ∧ nd = cd.enc v' ∧ c.setDefaults = true ∧
+      jsonTypes.contains (base header) = true := by
   rw [bodyOutcome_eq] at h
   split at h
   · cases h
@@ -794,7 +914,7 @@ theorem rewrite_is_encoded_visit (c : Ctx) (declared : List (String × Option S)
         | none => simp [hs] at h
         | some s =>
           simp only [hs] at h
-          cases hd : decoded header parse text data with
+          cases hd : decoded header cd data with
           | none => simp [hd] at h
           | some v =>
             simp only [hd] at h
@@ -809,15 +929,14 @@ theorem rewrite_is_encoded_visit (c : Ctx) (declared : List (String × Option S)
                 · rename_i henc
                   cases h
                   simp only [Bool.and_eq_true] at hcond
-                  exact ⟨key, s, v, v', rfl, hs, rfl, hv, rfl, hcond.1, by simpa [hasEncoder] using henc⟩
+                  exact ⟨key, s, v, v', rfl, hs, rfl, hv, rfl, hcond.1, henc⟩
                 · cases h
               · cases h
 
 /-- The rewrite fails exactly in the class `NoBodyEncoder`. -/
-theorem rewriteFails_iff_noBodyEncoder (c : Ctx) (declared : List (String × Option S)) (header : String)
-    (parse : Stream.Bytes → Option J) (text : Stream.Bytes → J) (enc : J → Stream.Bytes) (data : Stream.Bytes) :
-    bodyOutcome c declared header parse text enc data = .rewriteFails ↔
-      NoBodyEncoder c declared header parse text data = true := by
+theorem rewriteFails_iff_noBodyEncoder (c : Ctx) (declared : List (String × Option S)) (header : String) (cd : Codec)
+    (data : Stream.Bytes) :
+    bodyOutcome c declared header cd data = .rewriteFails ↔ NoBodyEncoder c declared header cd data = true := by
   rw [bodyOutcome_eq, noBodyEncoder_eq]
   cases hd : declared with
   | nil => simp [contentGet]
@@ -834,7 +953,7 @@ theorem rewriteFails_iff_noBodyEncoder (c : Ctx) (declared : List (String × Opt
         | none => simp
         | some s =>
           simp only
-          cases hdv : decoded header parse text data with
+          cases hdv : decoded header cd data with
           | none => simp
           | some v =>
             simp only
@@ -845,15 +964,49 @@ theorem rewriteFails_iff_noBodyEncoder (c : Ctx) (declared : List (String × Opt
               unfold finish
               cases h1 : c.setDefaults <;> cases h2 : J.beq v' v <;> cases h3 : hasEncoder (base header) <;> simp
 
-/-- F-C13-8 (new): `Content-Type: application/problem+json`, a property with a default is absent: the valid request is
-    rejected ("rewriting failed") where the spec forwards it with the default -/
+/-- In the fragment the rewrite can only fail for a YAML body. -/
+theorem rewriteFails_only_yaml (c : Ctx) (declared : List (String × Option S)) (header : String) (cd : Codec)
+    (data : Stream.Bytes) (h : bodyOutcome c declared header cd data = .rewriteFails) : decoderOf (base header) = .yaml := by
+  cases hd : decoderOf (base header) with
+  | yaml => rfl
+  | json =>
+    have := (rewriteFails_iff_noBodyEncoder c declared header cd data).mp h
+    rw [noBodyEncoder_eq] at this
+    simp [json_decoded_has_encoder _ hd] at this
+  | plain => rcases plain_body_never_rewritten c declared header cd data hd with k | k <;> rw [k] at h <;> cases h
+  | none =>
+    exfalso
+    rw [bodyOutcome_eq] at h
+    split at h
+    · cases h
+    · split at h
+      · cases h
+      · split at h
+        · simp [decoded, hd] at h
+        · cases h
+
+/-- F-C13-8 (what is left open): `Content-Type: application/yaml`, a property with a default is absent: the valid
+    request is rejected ("rewriting failed") where the spec forwards it with the default -/
 theorem witness_no_body_encoder :
     let s : S := .obj {} [] [("d", .leaf { dflt := some (.num 7) } .number)] true
+    let declared : List (String × Option S) := [("application/yaml", some s)]
+    let cd : Codec := { parse := fun _ => none, yaml := fun _ => some (.obj []), text := fun _ => "", enc := fun _ => [1] }
+    NoBodyEncoder {} declared "application/yaml" cd [0] = true ∧
+    bodyOutcome {} declared "application/yaml" cd [0] = .rewriteFails ∧
+    specOutcome {} declared "application/yaml" cd [0] = .rewrite [1] := by
+  decide
+
+/-- regression (F-C13-8, first face, repaired by 54b25f5): `Content-Type: application/problem+json`, a property with a
+    default is absent: the body is forwarded re-encoded with the default — model = spec (before the repair the model
+    answered `rewriteFails`) -/
+theorem regression_json_family_encoder :
+    let s : S := .obj {} [] [("d", .leaf { dflt := some (.num 7) } .number)] true
     let declared : List (String × Option S) := [("application/problem+json", some s)]
-    let parse : Stream.Bytes → Option J := fun _ => some (.obj [])
-    NoBodyEncoder {} declared "application/problem+json" parse (fun _ => .null) [0] = true ∧
-    bodyOutcome {} declared "application/problem+json" parse (fun _ => .null) (fun _ => [1]) [0] = .rewriteFails ∧
-    specOutcome {} declared "application/problem+json" parse (fun _ => .null) (fun _ => [1]) [0] = .rewrite [1] := by
+    let cd : Codec := { parse := fun _ => some (.obj []), yaml := fun _ => none, text := fun _ => "", enc := fun _ => [1] }
+    NoBodyEncoder {} declared "application/problem+json" cd [0] = false ∧
+    bodyOutcome {} declared "application/problem+json" cd [0] = .rewrite [1] ∧
+    specOutcome {} declared "application/problem+json" cd [0] = .rewrite [1] ∧
+    jsonTypes.all hasEncoder = true := by
   decide
 
 /-- non-vacuity (the seeded-defect shape): `application/json; charset=utf-8` against a declared `application/json`:
@@ -861,10 +1014,14 @@ theorem witness_no_body_encoder :
 example :
     let s : S := .obj {} [] [("d", .leaf { dflt := some (.num 7) } .number)] true
     let declared : List (String × Option S) := [("application/json", some s)]
-    NoBodyEncoder {} declared "application/json; charset=utf-8" (fun _ => some (.obj [])) (fun _ => .null) [0] = false ∧
-    bodyOutcome {} declared "application/json; charset=utf-8" (fun _ => some (.obj [])) (fun _ => .null) (fun _ => [1]) [0] = .rewrite [1] ∧
-    bodyOutcome {} declared "application/json ; charset=utf-8" (fun _ => some (.obj [])) (fun _ => .null) (fun _ => [1]) [0] = .reject ∧
-    bodyOutcome {} [("application/*", some s)] "application/hal+json" (fun _ => some (.obj [("d", .num 1)])) (fun _ => .null) (fun _ => [1]) [0] = .accept := by
+    let cd : Codec := { parse := fun _ => some (.obj []), yaml := fun _ => none, text := fun _ => "", enc := fun _ => [1] }
+    let cd1 : Codec := { cd with parse := fun _ => some (.obj [("d", .num 1)]) }
+    declaredWf declared = true ∧
+    NoBodyEncoder {} declared "application/json; charset=utf-8" cd [0] = false ∧
+    bodyOutcome {} declared "application/json; charset=utf-8" cd [0] = .rewrite [1] ∧
+    bodyOutcome {} declared "application/json ; charset=utf-8" cd [0] = .reject ∧
+    bodyOutcome {} [("application/*", some s)] "application/hal+json" cd1 [0] = .accept ∧
+    bodyOutcome {} [("application/*", some s)] "application/hal+json; v=1" cd [0] = .rewrite [1] := by
   decide
 
 end MediaPart
